@@ -22,6 +22,11 @@ CLAIMED = {
    text="Bounded symbolic check that no panic path is feasible in the hand-written layer between yaml.v3's node tree and the AST: all 18 UnmarshalYAML methods of taskfile/ast on arbitrary well-formed yaml.Node trees (symbolic kind, value, arity, position), NewGitNode/getScheme on symbolic URL paths, and the snippet arithmetic for every file length / position / padding. Every feasible runtime-panic path (index, nil dereference, failed assertion, regexp.MustCompile) is a violation; counterexamples are confirmed by running the real yaml.Unmarshal on the serialised tree.",
    note="inputs are well-formed node trees, not byte strings: yaml.v3's scanner/parser/decoder is not encoded (node.Decode is a stub that fails or returns an arbitrary value of the target's static type with bounded structure, see engine/decode.go); giturls.Parse, net/url String/Query and the chroma highlighter are stubs; text/template parsing, OOM and wall-clock bounds are outside; node depth <= 1 level of children, <=1 (thorough 2) items per node, strings <= 3 bytes.",
    technique="panic-reachability queries over taskfile/ast UnmarshalYAML methods, NewGitNode, NewSnippet/String; native replay through yaml.Unmarshal"),
+ "C10": dict(
+   category="other",
+   text="Bounded symbolic check of the real variable resolution (Taskfile.Merge, Tasks.Merge, Vars.Merge, Compiler.getVariables/getSpecialVars, compiledTask's env block, env.Get): one name defined at an arbitrary subset of the 7 sites (task vars, call vars, included-Taskfile vars, include-statement vars, CLI assignment, global vars, OS environment; 2^7 subsets by symbolic booleans, symbolic values, literal or sh:), for a task of the root file and of an included file; the solver discharges that the compiled value is the one of the highest-priority defining site, and for env: process environment first unless ENV_PRECEDENCE, then task env over global env. Tests pin single precedence pairs; here every subset is covered.",
+   note="templater.Replace* are identity stubs (values are template-free); sh: values go through a stub shell that understands `echo <text>`; os.Environ/LookupEnv are a harness list; dotenv files and nesting depth > 1 are not yet encoded; values <= 2 bytes over {a,b}.",
+   technique="harnesses over Taskfile.Merge + Compiler.GetVariables and Executor.CompiledTask + env.Get with symbolic definition-site subsets; native replay with the real templater"),
 }
 
 NA = {p: NOT_YET for p in ["C%02d" % i for i in range(1, 21)]}
